@@ -477,7 +477,7 @@ impl Display for DefaultFunction {
             Blake2b_256 => write!(f, "blake2b_256"),
             Keccak_256 => write!(f, "keccak_256"),
             Blake2b_224 => write!(f, "blake2b_224"),
-            VerifyEd25519Signature => write!(f, "verifySignature"),
+            VerifyEd25519Signature => write!(f, "verifyEd25519Signature"),
             VerifyEcdsaSecp256k1Signature => write!(f, "verifyEcdsaSecp256k1Signature"),
             VerifySchnorrSecp256k1Signature => write!(f, "verifySchnorrSecp256k1Signature"),
             AppendString => write!(f, "appendString"),
